@@ -38,7 +38,8 @@ SoftmaxWitnessOK(L, X, P, a, e, Z) ==
      IN /\ IsZero(P[i][i])
         /\ \A k \in 1..n : k # i =>
               /\ Approx(a[i][k], Sub(s[k], m), 2, 2, Add(s[k], One))
-              /\ IsPos(e[i][k]) /\ Leq(e[i][k], One) /\ (IsZero(a[i][k]) => e[i][k] = One)
+              \* (exp underflows to 0 in double precision beyond ~745: a tabulated 0 is accepted for arguments >= 700)
+              /\ (IsPos(e[i][k]) \/ (IsZero(e[i][k]) /\ Geq(a[i][k], FromInt(700)))) /\ Leq(e[i][k], One) /\ (IsZero(a[i][k]) => e[i][k] = One)
               /\ \A k2 \in 1..n : (k2 # i /\ Lt(a[i][k], a[i][k2])) => Leq(e[i][k2], e[i][k])
               /\ Approx(Mul(P[i][k], Z[i]), e[i][k], 2, 3, One)
         /\ Approx(Z[i], DM!Sum([t \in 1..(n - 1) |-> e[i][others[t]]]), 2, 2, Z[i])
